@@ -89,7 +89,7 @@ namespace verif
         long             ledger[NSLOT];     // traits level net bytes (leak oracle)
         u32              faults_left, moves_left, constructs_left, pad0_;
         u32              bulk_n, bulk_owner, bulk_size, bulk_fam;
-        u16              bulk_off[320]; // offsets of the nodes of the bulk group (allocation order)
+        u16              bulk_off[800]; // offsets of the nodes of the bulk group (allocation order)
 
         // does [off, off+n) intersect a live allocation (individually tracked or bulk)?
         bool overlaps_live(u32 off, u32 n) const
@@ -256,6 +256,8 @@ namespace verif
         bool        try_release = false;
         bool        destroy_op  = true;
         int         bulk        = 0;     // size of the bulk group (0 = no bulk operations)
+        int         bulk_rounds = 1;     // how often the bulk group may be extended
+        int         place       = 0;     // upstream placement policy (0 lowest address, 1 alternating lowest / highest)
         bool        bad         = false; // add the deliberately invalid calls the debug checks must report (C16)
         bool        objhi       = false; // place the allocator objects above the arena instead of below
     };
@@ -372,6 +374,7 @@ namespace verif
             }
             w.h.up.init(w.arena, CP().arena, u32(CP().B));
             w.h.up.check_lifo = 1;
+            w.h.up.place      = u32(CP().place);
             g_up()            = &w.h.up;
             w.h.faults_left   = u32(CP().faults);
             w.h.moves_left    = u32(CP().moves);
@@ -491,7 +494,9 @@ namespace verif
             case OP_CONSTRUCT:
                 return h.constructs_left > 0 && h.slot_state[d.a] == ST_DEAD;
             case OP_BULK:
-                return h.slot_state[d.a] == ST_VALID && h.bulk_n == 0;
+                // the group can be extended (several blocks of a small-node pool) as long as it belongs to this slot
+                return h.slot_state[d.a] == ST_VALID && h.bulk_n + u32(CP().bulk) <= 800 && (h.bulk_n == 0 || h.bulk_owner == u32(d.a))
+                       && h.bulk_n < u32(CP().bulk) * u32(CP().bulk_rounds);
             case OP_UNBULK:
                 return h.bulk_n > 0 && h.bulk_owner == u32(d.a) && h.slot_state[d.a] == ST_VALID;
             }
@@ -839,7 +844,7 @@ namespace verif
             auto& t = T();
             auto  r = P::make_req(w.x, s, 0);
             int   n = 0, grew = 0;
-            for (; n < CP().bulk && n < 320; ++n)
+            for (; n < CP().bulk && w.h.bulk_n < 800; ++n)
             {
                 if (!do_alloc(s, r, true))
                     break;
@@ -858,7 +863,7 @@ namespace verif
             h.up.cur_owner = u32(s);
             u32 n = h.bulk_n;
             // take the group out of the model first, then release one by one
-            u16 offs[320];
+            u16 offs[800];
             std::memcpy(offs, h.bulk_off, sizeof offs);
             u32 size = h.bulk_size, fam = h.bulk_fam;
             auto r   = P::make_req(w.x, s, 0);
@@ -1160,6 +1165,8 @@ namespace verif
         cp.try_release = a.n("tryrel", 0) != 0;
         cp.destroy_op  = a.n("destroy", 1) != 0;
         cp.bulk        = int(a.n("bulk", 0));
+        cp.bulk_rounds = int(a.n("bulk_rounds", 1));
+        cp.place       = a.s("place", "low") == "alt" ? 1 : 0;
         cp.bad         = a.n("bad", 0) != 0;
         cp.objhi       = a.n("objhi", 0) != 0;
         if (cp.L > MAXL)
